@@ -14,6 +14,8 @@ def run(req):
         return _wavelet(a)
     if fn == "fourier.nufft":
         return _nufft(a)
+    if fn == "scipy.contract":
+        return _scipy_contract(a)
     return dict(reproduced=False, detail="no replay handler for %s" % fn)
 
 
@@ -369,3 +371,55 @@ def _nufft(a):
         if tol is not None and not eg < 3 * tol:
             bad.append("nufft_adjoint(nufft(x)) differs from the exact Gram matrix by %.3g" % eg)
     return dict(reproduced=bool(bad), detail="; ".join(bad) or "relative error %.3g" % e)
+
+
+def _scipy_contract(a):
+    """the assumed scipy.signal contract of contracts/C08.py (ScipyC), checked on the installed scipy"""
+    import itertools
+    import scipy.signal as signal
+    rs = np.random.RandomState(int(a.get("seed", 0)))
+    sa, sb = tuple(a["shape_a"]), tuple(a["shape_b"])
+    mode = a.get("mode", "full")
+    A = rs.standard_normal(sa) + 1j * rs.standard_normal(sa)
+    B = rs.standard_normal(sb) + 1j * rs.standard_normal(sb)
+    nd = len(sa)
+    ge = all(x >= y for x, y in zip(sa, sb))
+    le = all(x <= y for x, y in zip(sa, sb))
+
+    def full(X, Y):
+        out = np.zeros([x + y - 1 for x, y in zip(X.shape, Y.shape)], complex)
+        for k in itertools.product(*[range(n) for n in out.shape]):
+            tot = 0
+            for j in itertools.product(*[range(n) for n in X.shape]):
+                idx = tuple(kk - jj for kk, jj in zip(k, j))
+                if all(0 <= i < n for i, n in zip(idx, Y.shape)):
+                    tot += X[j] * Y[idx]
+            out[k] = tot
+        return out
+
+    def contract_conv(X, Y, mode):
+        f = full(X, Y)
+        if mode == "full":
+            return f
+        off = [min(x, y) - 1 for x, y in zip(X.shape, Y.shape)]
+        ln = [abs(x - y) + 1 for x, y in zip(X.shape, Y.shape)]
+        return f[tuple(slice(o, o + l) for o, l in zip(off, ln))]
+    bad = []
+    if mode == "valid" and not (ge or le):
+        for fn in (signal.convolve, signal.correlate):
+            try:
+                fn(A, B, mode="valid")
+                bad.append("%s accepted mixed larger/smaller axes in 'valid' mode" % fn.__name__)
+            except ValueError:
+                pass
+        return dict(reproduced=bool(bad), detail="; ".join(bad) or "rejected as the contract says")
+    got = signal.convolve(A, B, mode=mode)
+    want = contract_conv(A, B, mode)
+    if got.shape != want.shape or np.max(np.abs(got - want)) > 1e-9:
+        bad.append("convolve(%s,%s,%s) differs from the contract" % (sa, sb, mode))
+    Brc = np.conj(B[tuple(slice(None, None, -1) for _ in range(nd))])
+    got = signal.correlate(A, B, mode=mode)
+    want = contract_conv(A, Brc, mode)
+    if got.shape != want.shape or np.max(np.abs(got - want)) > 1e-9:
+        bad.append("correlate(%s,%s,%s) differs from convolve(a, conj(reverse(b)))" % (sa, sb, mode))
+    return dict(reproduced=bool(bad), detail="; ".join(bad) or "scipy.signal matches the assumed contract")
